@@ -103,6 +103,16 @@ def run_case(rng, tier, case):
         return
     nsamp = 8 if tier == 'quick' else 14
     sel = [pairs[int(i)] for i in rng.permutation(len(pairs))[:nsamp]]
+    # plus the pairs with the highest and the lowest reported price (where a price that was capped, floored or mis-scaled is most likely to sit)
+    def _p(q):
+        c_ = 'nodal price: ' + q[3]
+        v_ = prices.loc[times[q[2]], c_] if c_ in prices.columns else np.nan
+        return float(v_) if not pd.isnull(v_) else np.nan
+    pv = np.array([_p(q) for q in pairs], float)
+    if np.isfinite(pv).any():
+        for q in (pairs[int(np.nanargmax(pv))], pairs[int(np.nanargmin(pv))]):
+            if q not in sel:
+                sel.append(q)
     nonvac = 0
     import eaopack.optimization as EO
     for (k, row, t, n) in sel:
